@@ -34,6 +34,9 @@ func (lockEngine) Generate(rng *rand.Rand, prop string, thorough bool) *Plan {
 	cfg := Cfg{HashSeed: rng.Uint32(), MaxSeg: 4096, CompMinSeg: 1024, CompFrag: 0.5, NKeys: 4}
 	cfg.SchedSeed = rng.Int63()
 	cfg.Sticky = []int{0, 0, 2, 4}[rng.Intn(4)]
+	// 1 run in 4 starts on a directory as left by an opener that died right after publishing the lock file and
+	// before removing the temporary name it was published from: two names, one inode, nobody holds it
+	cfg.RecoverFirst = rng.Intn(4) == 0
 	p := &Plan{Property: prop, Engine: "lock", Cfg: cfg}
 	p.SetKeys([][]byte{[]byte("a"), []byte("b"), []byte("c"), []byte("d")})
 	n := 2 + rng.Intn(3)
@@ -201,6 +204,23 @@ func (l lockEngine) Execute(p *Plan) *RunResult {
 	}
 	// tryOpen: one Open call with all of C13's judgements
 	afterFailedOpen := false // an Open that had taken the lock failed and its process died: recovery next time is allowed
+	if p.Cfg.RecoverFirst {
+		// what a crash between link(tmp, "lock") and unlink(tmp) inside an earlier Open leaves behind
+		if err := os.MkdirAll(dir, 0755); err != nil {
+			panic(err)
+		}
+		tmp := filepath.Join(dir, "lock.99999.1")
+		f, err := os.OpenFile(tmp, os.O_CREATE|os.O_RDWR, 0644)
+		if err != nil {
+			panic(err)
+		}
+		f.Close()
+		if err := os.Link(tmp, filepath.Join(dir, "lock")); err != nil {
+			panic(err)
+		}
+		afterFailedOpen = true
+		res.Probes["start_with_leftover_lock_names"]++
+	}
 	tryOpen := func(task int, failAt int) (*pogreb.DB, *sessionFS, *lockSession) {
 		sf := &sessionFS{inner: fs.OS, failAt: failAt}
 		db, err := pogreb.Open(dir, opts(sf))
